@@ -337,6 +337,7 @@ static int run_exec(const int *tids, int nt, const unsigned char *prefix, int np
     pid_t pid = fork();
     if(pid < 0) die("fork");
     if(pid == 0) {
+        die_with_parent();
         tstate ts[SCHED_MAXT];
         sched_body bs[SCHED_MAXT];
         void *as[SCHED_MAXT];
